@@ -58,7 +58,7 @@ impl Completions {
     pub(crate) fn poll(&mut self, shared: &Shared, timeout: Option<Duration>) -> io::Result<()> {
         let mut head = load_kernel_shared(self.entries_head);
         let mut tail = load_kernel_shared(self.entries_tail);
-        if head >= tail {
+        if head == tail {
             // If we have no completions we make a system call to wait for
             // completion events.
             log::trace!(timeout:?; "waiting for completion events");
@@ -74,8 +74,7 @@ impl Completions {
             tail = load_kernel_shared(self.entries_tail);
         }
 
-        debug_assert!(tail >= head);
-        while head < tail {
+        while head != tail {
             let index = (head & (self.entries_len - 1)) as usize;
             // SAFETY: see below.
             let ptr = unsafe { self.entries.add(index).as_ptr() };
@@ -91,7 +90,7 @@ impl Completions {
             unsafe { completion.process() };
             // NOTE: poisoned before the processing above.
             asan::poison(ptr);
-            head += 1;
+            head = head.wrapping_add(1);
         }
 
         // Let the kernel write more completions.
